@@ -11,6 +11,19 @@ def bstateOfName (s : String) : Option BState :=
   else if s = "Cached" then some .cached
   else none
 
+/-- The path hash of a hard-linked filegroup output is computed from its current contents, never taken from / stored
+    in the xattr of the shared inode: CopyHash (copy = true) marks the destination under the condition `copy` alone,
+    the filegroup builder calls it on both completion paths, `Hash` turns the mark into store = false / recalc = true
+    and calls the worker with read = !recalc, the worker reads the xattr only under `read` and stores only under
+    `store`, and `RuntimeHash` goes through `PathHasher.Hash` without forcing anything else. -/
+def linkedHashFromContent : Bool :=
+  C11.copyHashMarksDestination && C11.copyHashMarkCondition == "<copy>" && C11.copyHashPassesCopyTrue &&
+  C11.hashMarkedPathAssigns.contains "store=false" && C11.hashMarkedPathAssigns.contains "recalc=true" &&
+  C11.hashWorkerArgs == ["path", "store", "!recalc", "timestamp"] &&
+  C11.hashWorkerReadGuardedByRead && C11.hashWorkerStoreGuardedByStore &&
+  C11.filegroupBuildSequence == ["built", "CopyHash", "built", "CopyHash"] &&
+  C11.runtimeHashPathVia == "PathHasher.Hash(recalc=false)"
+
 def generatedFacts : Facts :=
   { hashesRule := C11.runtimeHashParts.contains "rule(runtime=true,postBuild=false)",
     hashesConfig := C11.runtimeHashParts.contains "config",
@@ -18,6 +31,7 @@ def generatedFacts : Facts :=
                    C11.runtimeHashLoopIter == "IterRuntimeFiles",
     -- the destination name of each entry, NUL-terminated (names cannot contain NUL, digests have a fixed width)
     hashesNames := C11.runtimeHashLoopWrites.contains "name:dest" && C11.runtimeHashLoopWrites.contains "nul",
+    linkXattr := !linkedHashFromContent,
     rerunForces := C11.needToRunConds.contains "force",
     reuseStates := C11.needToRunStates.filterMap bstateOfName,
     verifiesHash := C11.needToRunVerifiesResultsHash && C11.verifyHashIsEqualityWithRecorded &&
@@ -39,6 +53,7 @@ def hashesNoOutput : Bool := C11.ruleHashRuntimeWrites.contains "hashBool:Test.N
 def FactsOK : Bool :=
   generatedFacts.hashesRule && generatedFacts.hashesConfig && generatedFacts.hashesFiles && generatedFacts.hashesNames &&
   hashesNoOutput &&   -- since the repair of `runtime-hash-omits-no-test-output`
+  !generatedFacts.linkXattr &&   -- no stored hash is trusted on an inode shared with a user-editable source file
   generatedFacts.verifiesHash && generatedFacts.storeIfAllSucceeded && generatedFacts.removesBefore &&
   generatedFacts.rerunForces && generatedFacts.singleRunOnly &&
   -- the gate consults needToRun and the stored result is what is reported
